@@ -65,6 +65,8 @@ class Frames:
         for p in names:
             out.append({"id": "history/%s/after-all" % p, "k": "history", "p": p, "bounded": "P after the whole corpus"})
             out.append({"id": "history/%s/twice" % p, "k": "twice", "p": p, "bounded": "P twice"})
+        out.append({"id": "history/shared-include", "k": "shared_include",
+                    "bounded": "two programs that INCLUDE the same file at different statement positions, one after the other"})
         out.append({"id": "history/fresh-process", "k": "fresh", "native_only": True,
                     "bounded": "corpus in a fresh CPython process vs a warm one, two hash seeds"})
         return out
@@ -98,6 +100,19 @@ class Frames:
             assemble(env, lines, want_listing=True)
         again = _view(assemble(env, ALL[p], want_listing=True))
         env.ensure("C17:same-output-after-other-programs", first == again, ("C17",), lambda: "output of %s changed after other assemblies" % p)
+
+    def k_shared_include(self, env, cell, native):
+        """state kept per include FILE (not per program) would show here: the second program must assemble as if it were alone"""
+        body = ["LOOP    LDA #$01\n", "        JMP LOOP\n", "TAIL    BNE LOOP\n", "        LEAX TAIL,PCR\n"]
+        fs = {"c17shared.asm": body}
+        q = ["        ORG $2000\n", "        NOP\n", "        INCLUDE c17shared.asm\n"]
+        pr = ["        ORG $2000\n", "        NOP\n", "        NOP\n", "        NOP\n", "        INCLUDE c17shared.asm\n", "AFTER   JMP TAIL\n"]
+        alone = _view(assemble(env, pr[:4] + body + pr[5:], want_listing=True))
+        assemble(env, q, want_listing=True, fs=fs)
+        second = _view(assemble(env, pr, want_listing=True, fs=fs))
+        third = _view(assemble(env, pr, want_listing=True, fs=fs))
+        env.ensure("C17:same-output-after-other-programs", second[:3] == alone[:3] and third[:3] == alone[:3], ("C17",),
+                   lambda: "a program that includes a file another program included before assembles differently")
 
     def k_twice(self, env, cell, native):
         p = cell["p"]
